@@ -174,11 +174,18 @@ def device_full(col, case, d, r):
     sp = os.path.join(d, "spec.json")
     with open(sp, "w") as f:
         json.dump({}, f)
+    gone_reader = None
     if "--out" in argv:
         argv = [("/dev/full" if a == output else a) for a in argv]
         stdout = subprocess.PIPE
-    else:
+    elif r.random() < 0.5:
         stdout = open("/dev/full", "wb")
+    else:
+        # `nbmerge b l r | head -0`: the reader of the pipe has gone away before anything was written (EPIPE)
+        rfd, wfd = os.pipe()
+        os.close(rfd)
+        stdout = os.fdopen(wfd, "wb")
+        gone_reader = True
     feeder = None
     if os.path.join(d, "base.fifo") in argv:
         feeder = subprocess.Popen(["sh", "-c", "cat base.ipynb > base.fifo"], cwd=d, stdout=subprocess.DEVNULL, stderr=subprocess.DEVNULL)
@@ -195,7 +202,7 @@ def device_full(col, case, d, r):
             stdout.close()
     col.eval()
     col.mon("real_full_device")
-    col.count("real_full_device:" + case["mode"])
+    col.count("real_full_device:" + case["mode"] + (":reader-gone" if gone_reader else ""))
     if p.returncode == 0:
         col.violation("success-reported-although-output-device-full", "mode=%s argv=%s" % (case["mode"], argv[-6:]), dict(case, fault="device-full"), "never-report-success")
 
